@@ -3,8 +3,9 @@ hash seeds.
 
 Every history (a list of 1-5 calls, see _c18_runtime.py) is executed in its own process forked from
 a freshly started interpreter that has only imported the libraries.  Contracts (from the statement):
-  inputs   : after every call the data frames, the formula specs (mutable list / dict specs and
-             shared Formula objects) and the context dict -- including the mutable lists / dicts / arrays in it
+  inputs   : after every call the data frames, the formula specs (mutable list / dict specs; for shared
+             Formula objects and the formulas held by shared specs a deep snapshot of every term and of
+             every factor attribute: expr, eval method, kind, metadata, token) and the context dict -- including the mutable lists / dicts / arrays in it
              that formulas hand to transforms as arguments -- equal deep copies taken before;
   history  : the result of call i (values bit for bit, dtypes, column order, index labels, rows the
              caller's drop set reports) equals the result of *the same call made in a fresh process*
@@ -56,9 +57,10 @@ STATEFUL = {"center", "scale:B", "poly", "bs", "many-factors", "dict-spec", "C-s
 CORE = ["a+A", "center", "bs-knots-list"]
 CORE_THOROUGH = ["a+A", "center", "poly", "dict-spec", "scale:B", "two-sided", "bs-knots-list", "list-spec"]
 DATA = ("d0", "d1", "d2")
+DATA_KINDS = ("d0", "d2", "d3")  # d3: column A holds numbers instead of text (same formula object, other kind)
 # a dict-of-columns input ("dd" in the runtime) is rejected by the library on this Python ('builtins.dict' is not a
 # registered input type), so it is not drawn; the runtime keeps supporting it.
-DATA_ALL = DATA
+DATA_ALL = DATA + ("d3",)
 OUTPUTS = ("pandas", "numpy", "sparse")
 BUILD_KINDS = ("mm", "Fmm", "uspec")
 SEEDS = ("0", "1", "2", "3", "random")
@@ -116,8 +118,8 @@ def isolated_chain(history, i):
 # --------------------------------------------------------------------------- enumeration
 
 
-def pair_histories(core):
-    ops = [[k, SPECS[s], d, "pandas"] for k in BUILD_KINDS for s in core for d in DATA]
+def pair_histories(core, data=DATA):
+    ops = [[k, SPECS[s], d, "pandas"] for k in BUILD_KINDS for s in core for d in data]
     for o1, o2 in itertools.product(ops, repeat=2):
         yield [o1, o2, ["joint", [0, 1], "d2"], ["reuse", 0, "d2"], ["reuse", 1, "d0"]]
 
@@ -194,7 +196,7 @@ def repro_hashseed(history):
         "    p = subprocess.run([sys.executable, '-c', RUNTIME + '\\nprint(json.dumps([c[\"digest\"] for c in run_history(' + repr(H) + ')[\"calls\"]]))'],\n"
         "                       capture_output=True, text=True, env=env)\n"
         "    assert p.returncode == 0, p.stderr[-800:]\n"
-        "    out[seed] = p.stdout.strip().splitlines()[-1]\n"
+        "    out[seed] = json.dumps(['EXC' if d.startswith('EXC') else d for d in json.loads(p.stdout.strip().splitlines()[-1])])\n"
         "assert len(set(out.values())) == 1, out\n"
     )
 
@@ -240,11 +242,13 @@ def run_bounded(ctx):
         "scipy and formulaic (repro programs start a really fresh interpreter)",
         "A-C18-same-call: the fresh counterpart of a spec re-use is the build that produced the spec followed by the re-use",
         "A-C18-digest: a result is its cell values (raw bytes), dtypes, column names, index labels and the content of the "
-        "caller's drop set; exception outcomes are compared by type and message (addresses stripped)",
+        "caller's drop set; exception outcomes are compared by type and message (addresses stripped) within one hash seed, and only "
+        "as 'the build failed' across hash seeds (which of several failing factors is reported first is seed dependent)",
         "A-C18-blas: single-threaded BLAS in the child processes, so LAPACK-based transforms (poly) are run-to-run reproducible",
     )
     core = CORE_THOROUGH if ctx.thorough else CORE
-    pairs = list(pair_histories(core))
+    pair_data = DATA + ("d3",) if ctx.thorough else DATA_KINDS
+    pairs = list(pair_histories(core, pair_data))
     rand = list(random_histories(rng, 3000 if ctx.thorough else 250))
     every = pairs + rand
     chains = {}
@@ -259,11 +263,11 @@ def run_bounded(ctx):
     with ctx.bounded(
         "pairs",
         rule=f"every ordered pair of builds over (entry: model_matrix / shared Formula object / shared un-materialized ModelSpec) x "
-        f"formulas {core} x data d0,d1,d2 (pandas output), followed by building both obtained specs jointly in one ModelSpecs "
+        f"formulas {core} x data {list(pair_data)} (d3: the text column A holds numbers; pandas output), followed by building both obtained specs jointly in one ModelSpecs "
         "and then re-using each of them on other data; "
         "each history in its own fresh process; a history is one case",
         exhaustive=True,
-        bound=f"{len(pairs)} histories of 5 calls over a {len(core) * 9}-call vocabulary",
+        bound=f"{len(pairs)} histories of 5 calls over a {len(core) * 3 * len(pair_data)}-call vocabulary",
     ) as b:
         rep = K.Reporter(ctx, b)
         base_pairs = run_zygotes(pairs, "0")
@@ -273,7 +277,7 @@ def run_bounded(ctx):
     with ctx.bounded(
         "random-histories",
         rule=f"seeded histories of 1-5 calls over {len(SPECS)} formula specs (strings, list and dict specs; stateful transforms, "
-        "context variables, two-sided / multi-part) x 3 frames (one with nulls and string index, one with other levels) x 3 outputs x "
+        "context variables, two-sided / multi-part) x 4 frames (one with nulls and string index, one with other levels, one in which the text column holds numbers) x 3 outputs x "
         "builds (model_matrix, shared Formula, shared un-materialized spec), re-uses (spec.get_model_matrix, model_matrix(<earlier "
         "result>)) and joint builds of two earlier specs in one ModelSpecs; context holds mutable lists / dicts / arrays that formulas "
         "pass to transforms (knots=, contrasts=, levels=, center=); histories revolve around one or two formulas; non-trivial = more than one call",
@@ -300,8 +304,11 @@ def run_bounded(ctx):
             got = run_zygotes(hs, seed)
             for h, r0, r1 in zip(hs, ref, got):
                 b.case((json.dumps(h, sort_keys=True), seed), nontrivial=True)
-                d0 = [c["digest"] for c in r0["calls"]]
-                d1 = [c["digest"] for c in r1["calls"]]
+                # A failing build is compared as "failed": when several factors of one build are in error, WHICH of
+                # them is reported first follows the iteration order of a set of factors and does vary with the hash
+                # seed; the statement speaks about results (values, column order, dropped rows), not error texts.
+                d0 = ["EXC" if c["digest"].startswith("EXC") else c["digest"] for c in r0["calls"]]
+                d1 = ["EXC" if c["digest"].startswith("EXC") else c["digest"] for c in r1["calls"]]
                 if d0 != d1:
                     i = next(j for j in range(len(d0)) if d0[j] != d1[j])
                     op = h[i]
